@@ -101,17 +101,20 @@ KANI_UNITS["C09"] = dict(
     extra_appends=[("crates/varpulis-runtime/src/sase.rs", C09_SHIM)],
     grade="K-complete", level="other", timeout=3000, harness_timeout=300,
     cell_grades={"_str": "K-bounded(1-character ASCII strings)", "c09_pred_": "K-bounded(1-character field name)"},
+    native_grade="bounded(native exhaustive enumeration: 36 filters (6 operators x 5 literals + 6 not/and/or forms) x 10 field values, through the real parser, compiler and engine)",
     functions=["varpulis-runtime/src/sase.rs: compare_values, values_equal, values_compare (pattern-step filter kernel)",
                "varpulis-runtime/src/engine/evaluator.rs: eval_expr_with_functions (Binary comparison arms) as used by .where: eval(..).and_then(as_bool).unwrap_or(false)",
-               "varpulis-runtime/src/engine/compiler.rs: expr_to_sase_predicate (operator table and operand order for `field <op> literal`), expr_to_value"],
+               "varpulis-runtime/src/engine/compiler.rs: expr_to_sase_predicate (operator table and operand order for `field <op> literal`), expr_to_value",
+               "engine level (native enumeration): parse + Engine::load + Engine::process for `.where(F)` vs `-> E where F`"],
     explanation=("PARTIAL (comparison kernel only). 60 cells over 6 comparison operators and the operand kinds {Int, Float (full-domain), Bool, Str (1 ASCII char), Null}: per operator "
                  "six same-kind / numeric-mixed pairs, one merged cell for the 12 mismatched kind pairs and one for Null-Null: the pattern-step kernel compare_values(l, r, op) must "
                  "give the same truth value as the `.where` truth function on Binary{op, lit(l), lit(r)} evaluated by the REAL evaluator; plus 6 cells showing that "
                  "expr_to_sase_predicate maps `f <op> literal` to Compare{f, the same operator, the same value} and 6 cells that a literal-on-the-left comparison is NOT turned into a "
                  "Compare with an un-mirrored operator. "
-                 "NOT decided: everything that needs an event with fields — missing or mistyped FIELDS (as opposed to literal operands of another kind), CompareRef against "
-                 "captured aliases, and not/and/or over undefined operands (by reading: `not (x > 5)` with x missing is true as a step filter and false in .where). Those paths go "
-                 "through IndexMap/FxHashMap lookups which CBMC cannot carry here."),
+                 "Filters over event FIELDS that are missing or of another type than the literal go through IndexMap/FxHashMap lookups which CBMC cannot carry; they are covered by a "
+                 "BOUNDED STAND-IN run natively on the public engine: the same filter text in `E.where(F)` and in the sequence step `-> E where F` accepts the same event, for 6 operators "
+                 "x 5 literals and six not/and/or forms over 10 field values (missing, ints, floats, NaN, strings, bool, null). NOT decided: CompareRef against captured aliases, "
+                 "filters beyond the enumerated forms."),
     assumptions=EVAL_STUBS + ["cfg(kani) re-export shim appended to sase.rs (1 one-line wrapper)"],
 )
 
